@@ -4,6 +4,7 @@
 use bita_verif_harness as h;
 
 mod chunking;
+mod format;
 mod planner;
 mod readers;
 
@@ -27,6 +28,7 @@ fn main() {
         "c08-http" => rt.block_on(readers::c08_http(seed, thorough)),
         "c08-io" => rt.block_on(readers::c08_io(seed, thorough)),
         "c03" => rt.block_on(planner::c03(seed, thorough)),
+        "fmt" => rt.block_on(format::fmt(seed, thorough)),
         "c09" => rt.block_on(chunking::c09(seed, thorough)),
         "c10" => rt.block_on(chunking::c10(seed, thorough)),
         _ => {
